@@ -260,11 +260,14 @@ def lazy_parallel_map(
                 q.put(submit(executor, function, ele, *args, **kwargs))
             while not q.empty():
                 yield result(q.get())
-        except GeneratorExit:
-            # A GeneratorExit will not stop the PoolExecutor,
+        except BaseException:
+            # A GeneratorExit (or an exception from function or generator)
+            # will not stop the PoolExecutor,
             # i.e. the PoolExecutor will finish all calculations,
             # before the PoolExecutor stops. This could take some time
-            # and is useless.
+            # and is useless. For the pathos backend ("mp") the tasks would
+            # even continue to run, after the exception reached the consumer,
+            # because the context manager of the pathos pool does nothing.
             terminate(executor, q)
             raise
 
